@@ -168,7 +168,7 @@ class Campaign:
             hists.append(satenc_ov_gen.gen_history(rng, small=True))
         for _ in range(n_big):
             hists.append(satenc_ov_gen.gen_history(rng, small=False))
-        for _ in range(80 if not ctx.thorough else 800):
+        for _ in range(80 if not ctx.thorough else 500):
             hists.append(satenc_ov_gen.gen_wide_history(rng))
         lines, spans = [], []
         for h in hists:
